@@ -2,8 +2,10 @@
 
 One case = a location-aware tree, a resource r, a second resource a (start of the relative lookups and the
 resource handed to the absolute ones), a relative path (tuple + string form), elements, an optional
-HTTP_X_VHM_ROOT header and a SCRIPT_NAME.  Sixteen observations per case (13-15: request.resource_url of three more
-resources, each through a new object, on the SAME request as 9-11):
+HTTP_X_VHM_ROOT header and a SCRIPT_NAME, optionally two lists of elements of ANY type (tels, tels2).  Twenty-three
+observations per case (13-15: request.resource_url of three more resources, each through a new object, on the SAME request
+as 9-11; 16-22: resource_path_tuple / resource_path / request.resource_url / request.resource_path with *tels, then
+resource_path / pyramid.url.resource_url / request.resource_path with *tels2 in the same process):
 
   0 resource_path_tuple(r, *els)        1 resource_path(r, *els)
   2 find_resource(a, resource_path_tuple(r))          3 find_resource(a, resource_path(r))
@@ -38,7 +40,11 @@ RULE = ('random trees (depth<=4, fan-out<=4; names: ASCII, reserved URL characte
         'percent-quoted header text, missing path, malformed UTF-8) x SCRIPT_NAME x resource flavours at every position '
         '(falsy containers: empty dict subclass / __len__ 0 / __bool__ False; location proxies forwarding __getitem__ through '
         '__getattr__; instance-level __getitem__) x three more resources whose URLs are asked of the SAME request through '
-        'objects created on demand; every case run over warm and cold caches. non-trivial = r is not the root, is '
+        'objects created on demand x names on which Unicode-aware str predicates / case mappings differ from ASCII (non-ASCII '
+        'digits, numerics, spaces, sharp s, dotted I, titlecase digraphs) x elements of any type (bytes: ASCII, UTF-8, malformed; '
+        'int, bool, float, Decimal, Fraction, None, str subclass) in two lists asked one after the other in one process, the '
+        'second often equal to the first AS A CACHE KEY but printing differently (1 / True / 1.0 / Decimal(\'1.00\')) or a near '
+        'miss (same text as the other type, other letter case); every case run over warm and cold caches. non-trivial = r is not the root, is '
         'found back from its own path, and the case has a virtual-root header or a non-empty relative path; distinct by '
         'full case')
 ASSUMPTIONS = [
@@ -47,7 +53,9 @@ ASSUMPTIONS = [
     'the theorems speak about resources whose lineage names are admissible (non-empty, no \'/\', not \'.\'/\'..\', not '
     'starting with \'@@\') Unicode scalar values (no lone surrogates) and that are reached by item lookup along their '
     'own names (location consistency)',
-    'elements, names and headers are str; query/anchor/route_name/__resource_url__ of resource_url belong to C17',
+    'names and headers are str; elements are str, bytes (read as UTF-8) or any other object, of which the code reads str(x) '
+    '(the harness supplies that text and the equality class of the object as a dictionary key); '
+    'query/anchor/route_name/__resource_url__ of resource_url belong to C17',
     'request.host_url (webob; scheme://host[:port], C17\'s subject) and the ValueError step of urllib.parse.urlsplit for '
     'bracketed hosts are taken from the implementation as oracle inputs of the model; webob\'s application_url and its '
     'PATH_SAFE constant are modelled',
@@ -62,6 +70,11 @@ TRUSTED = [
     'hand-written reference model coq/Model/C07.v: the regenerated functions are PROVED equal to it (Proofs/C07_gen.v); still '
     'hand-modelled and pinned: ResourceURL.__init__ (skeleton pin + fact url_vroot_mode, both texts), Request.resource_url / '
     'parse_url_overrides (pins; translated by C17), webob Request.blank / urllib.parse.urlsplit for scheme-like paths',
+    'elements of any type (Model/C07.v seg, quote_seg, join_path_segs, join_elements_e): hand-modelled reading of '
+    '`x.__class__ not in (str, bytes)` / str(x) / text_(x, \'utf-8\') in quote_path_segment and url._join_elements (exact-text '
+    'fact for _join_elements; the translated str-only gen_* are proved equal to it on str elements); Python str() of an '
+    'element and == / hash of two elements are supplied by the harness; fact c07_join_raw_key (is _join_path_tuple itself '
+    'lru_cached) selects the memo semantics of the second typed resource_path call',
     'coq/Model/C02.v (trees, ResourceTreeTraverser.__call__, webob unquote; split_path_info / decode_path_info regenerated by '
     "C02's translator) and its regenerated facts; Lib/PathNorm, Lib/Utf8, Lib/Percent",
     'webob Request.blank/environ_from_url/application_url and urllib.parse.urlsplit: modelled or taken as oracle, '
@@ -81,7 +94,11 @@ LEVEL_TEXT = ('Machine-checked theorems, for trees, names, elements and virtual 
               'resource_url / resource_path = application URL + slashed quoted names + quoted elements; the virtual-root '
               'prefix is omitted iff the resource lies inside the virtual root, the URL path traverses back to the resource '
               'with an empty view name under the same header, and virtual_root() returns the virtual root. For the '
-              'unrepaired text of ResourceURL both refutations of the design are theorems.')
+              'unrepaired text of ResourceURL both refutations of the design are theorems. Elements of any type: the typed '
+              'functions equal the str ones on the texts the elements stand for (bytes as UTF-8, objects printed), '
+              'resource_path(r, *els) = "/" + quoted names and element texts, malformed bytes = UnicodeDecodeError after the '
+              'earlier segments; the memo of _join_path_tuple is transparent unless it is keyed on the raw tuple AND the second '
+              'tuple holds a non-str non-bytes object printing differently -- refuted by the witness 1 / True (repaired finding).')
 LEVEL_NOTE = ('Trusted: Coq kernel; the translator\'s primitive table and the reference model\'s primitives (validated by '
               'correspondence); ResourceURL.__init__ and the url.py glue hand-modelled and pinned; webob / urllib modelled or '
               'oracle; Python harness.  A semantics-preserving rewrite of a translated function raises no alarm; a semantic '
@@ -90,6 +107,7 @@ LEVEL_NOTE = ('Trusted: Coq kernel; the translator\'s primitive table and the re
 facts = c07facts.facts
 
 FINDING_COLON = 'C07-relative-colon-parsed-as-url'
+FINDING_RAWKEY = 'C07-join-path-tuple-cache-raw-key'
 SAFE = "~!$&'()*+,;=:@"
 EXC = {'URLDecodeError': 1, 'UnicodeDecodeError': 2, 'UnicodeEncodeError': 3, 'TypeError': 4, 'ValueError': 5}
 
@@ -106,6 +124,14 @@ NFC_TWIN = {'cafe\u0301': 'caf\xe9', '\u212b': '\xc5', '\u2126': '\u03a9', '\u21
             '\u1112\u1161\u11ab': '\ud55c', 'A\u030a': '\xc5', 'u\u0308x': '\xfcx', 'q\u0323\u0307': 'q\u0307\u0323',
             'q\u0307\u0323': 'q\u0323\u0307', '\ufb01': 'fi', 'e\u0301': '\xe9', 'n\u0303o': '\xf1o'}
 NAMES += NON_NFC + ['caf\xe9', '\xc5', '\ud55c']
+# names on which Python's Unicode-aware str predicates and case mappings differ from their ASCII reading:
+# isdigit / isdecimal / isnumeric (Arabic-Indic, full-width, superscript, vulgar fraction, Roman numeral, CJK numeral),
+# isspace (NBSP, EM SPACE, IDEOGRAPHIC SPACE, LINE SEPARATOR), isalpha / isidentifier, lower / upper / casefold that change
+# the length or are not round-trippable (sharp s, dotted capital I, titlecase digraph, final sigma), ASCII digits
+UNICODE_CLASS = ['\u0664\u0662', '\uff12\uff10\uff12\uff14', '\xb2', '\xbd', '\u2163', '\u4e09', '7', '007', '4\u0662x',
+                 '\xa0', 'a\u2003b', '\u3000', '\u2028', '\xdf', '\u0130', '\u01c5', '\u03c2', 'STRASSE', 'I', 'i\u0307',
+                 '\u00aa', '\u2460', '_', '-1', '1.0', 'True', 'None']
+NAMES += UNICODE_CLASS
 BAD_NAMES = ['', '.', '..', 'a/b', '@@v', '@@', '\ud800', '/']
 FALSY_KINDS = ['dict', 'len', 'bool']
 # further flavours of a resource, marked in the same field: 'proxy' = a location proxy that adds __name__/__parent__ and
@@ -117,6 +143,171 @@ SCHEMEY = ['http:', 'https:', 'a:b', 'ftp:', 'HTTP:', 'x:', 'http:x', 'mailto:a@
 
 def wsgi(s):
     return s.encode('utf-8', 'surrogatepass').decode('latin-1')
+
+
+# ---- elements of any type (fields `tels`, `tels2` of a case).  JSON forms: a str stands for itself; ['b', latin-1 text of
+# the bytes]; ['i', int]; ['t', bool]; ['f', repr of a float]; ['d', text of a Decimal]; ['q', numerator, denominator];
+# ['n'] None; ['s', text] an instance of a str subclass
+class StrSub(str):
+    pass
+
+
+def elem_value(e):
+    if isinstance(e, str):
+        return e
+    k = e[0]
+    if k == 'b':
+        return e[1].encode('latin-1')
+    if k == 'i':
+        return int(e[1])
+    if k == 't':
+        return bool(e[1])
+    if k == 'f':
+        return float(e[1])
+    if k == 'd':
+        from decimal import Decimal
+        return Decimal(e[1])
+    if k == 'q':
+        from fractions import Fraction
+        return Fraction(int(e[1]), int(e[2]))
+    if k == 'n':
+        return None
+    if k == 's':
+        return StrSub(e[1])
+    raise ValueError(e)
+
+
+def valid_elem(e):
+    if isinstance(e, str):
+        return True
+    try:
+        if not (isinstance(e, list) and e and e[0] in ('b', 'i', 't', 'f', 'd', 'q', 'n', 's')):
+            return False
+        if e[0] == 'b' and not (len(e) == 2 and isinstance(e[1], str) and all(ord(c) < 256 for c in e[1])):
+            return False
+        if e[0] == 'i' and not (len(e) == 2 and isinstance(e[1], int) and not isinstance(e[1], bool)):
+            return False
+        if e[0] == 't' and not (len(e) == 2 and isinstance(e[1], bool)):
+            return False
+        if e[0] in ('f', 'd', 's') and not (len(e) == 2 and isinstance(e[1], str)):
+            return False
+        if e[0] == 'q' and not (len(e) == 3 and e[2] != 0):
+            return False
+        if e[0] == 'n' and len(e) != 1:
+            return False
+        v = elem_value(e)
+        return v == v           # no NaN: it is not equal to itself, so it has no key class
+    except Exception:
+        return False
+
+
+def elem_plain(v):
+    return v.__class__ is str or v.__class__ is bytes
+
+
+def elem_keys(values):
+    """key class (== and hash, what a dict / lru_cache goes by) of every non-str, non-bytes value among `values`"""
+    reps, out = [], []
+    for v in values:
+        if elem_plain(v):
+            out.append(None)
+            continue
+        for i, x in enumerate(reps):
+            if hash(x) == hash(v) and x == v:
+                out.append(i)
+                break
+        else:
+            reps.append(v)
+            out.append(len(reps) - 1)
+    return out
+
+
+def elems_wire(case):
+    """-> (wire of tels, wire of tels2, python values of tels, of tels2, {id(value): key})"""
+    v1 = [elem_value(e) for e in case.get('tels', [])]
+    v2 = [elem_value(e) for e in case.get('tels2', [])]
+    keys = elem_keys(v1 + v2)
+    kmap = {}
+
+    def one(v, k):
+        if v.__class__ is str:
+            return [0, v]
+        if v.__class__ is bytes:
+            return [1, v]
+        kmap[id(v)] = k
+        return [2, str(v), k]
+    w = [one(v, k) for v, k in zip(v1 + v2, keys)]
+    return w[:len(v1)], w[len(v1):], v1, v2, kmap
+
+
+TWINS = [[['i', 1], ['t', True], ['f', '1.0'], ['d', '1.0'], ['d', '1.00'], ['q', 1, 1], ['d', '1']],
+         [['i', 0], ['t', False], ['f', '0.0'], ['f', '-0.0'], ['d', '0'], ['d', '-0.0']],
+         [['i', 2], ['f', '2.0'], ['d', '2.0'], ['q', 4, 2]],
+         [['i', 42], ['f', '42.0'], ['d', '42.00']],
+         [['i', -1], ['f', '-1.0'], ['d', '-1']],
+         [['f', '0.5'], ['q', 1, 2], ['d', '0.5'], ['d', '0.50']]]
+OTHER_ELEMS = [['i', 7], ['i', 10 ** 20], ['f', '1.5'], ['f', '1e+22'], ['n'], ['s', 'a b'], ['s', 'x'], ['s', '\xe9'],
+               ['s', ''], ['s', '1'], ['f', 'inf'], ['i', 1], ['t', True], ['t', False], ['i', 0]]
+BYTES_ELEMS = [['b', 'a'], ['b', 'a b'], ['b', wsgi('caf\xe9')], ['b', wsgi('\u65e5\u672c')], ['b', wsgi('\U0001f600')], ['b', ''],
+               ['b', 'a/b'], ['b', '%41'], ['b', '\xe9'], ['b', '\xff'], ['b', 'a\xc3'], ['b', '\xed\xa0\x80'], ['b', '\xc0\xaf'],
+               ['b', wsgi('\u0664\u0662')], ['b', '1']]
+
+
+def gen_elem(rng):
+    x = rng.random()
+    if x < 0.30:
+        return rng.choice(NAMES + ['a/b', '', 'x y', '@@v', '..', '1', 'True', '1.0'])
+    if x < 0.55:
+        return list(rng.choice(BYTES_ELEMS))
+    if x < 0.85:
+        return list(rng.choice(rng.choice(TWINS)))
+    return list(rng.choice(OTHER_ELEMS))
+
+
+def twin_of(rng, e):
+    """an element that is EQUAL to e as a dictionary key but (usually) prints differently; for str / bytes a NEAR
+    miss that must not share an answer (the other type with the same text, another letter case, the printed form of an object)"""
+    for cls in TWINS:
+        if e in cls:
+            return list(rng.choice([t for t in cls if t != e] or cls))
+    if isinstance(e, list) and e[0] == 's':
+        return rng.choice([['s', e[1]], e[1]])
+    x = rng.random()
+    if isinstance(e, str):
+        if x < 0.3:
+            try:
+                return ['b', wsgi(e)]
+            except Exception:
+                return e
+        if x < 0.5:
+            return e.swapcase()
+        if x < 0.6 and e in ('1', 'True', '1.0', 'None'):
+            return {'1': ['i', 1], 'True': ['t', True], '1.0': ['f', '1.0'], 'None': ['n']}[e]
+        return e
+    if isinstance(e, list) and e[0] == 'b' and x < 0.4:
+        try:
+            return e[1].encode('latin-1').decode('utf-8')
+        except Exception:
+            return e
+    return e
+
+
+def gen_typed_elements(rng, case):
+    x = rng.random()
+    if x >= 0.40:
+        return
+    n = rng.choice([1, 1, 1, 2, 2, 3])
+    tels = [gen_elem(rng) for _ in range(n)]
+    if x < 0.04:
+        tels = [list(rng.choice(rng.choice(TWINS))) for _ in range(n)]
+    case['tels'] = tels
+    y = rng.random()
+    if y < 0.45:
+        case['tels2'] = [twin_of(rng, e) for e in tels]
+    elif y < 0.60:
+        case['tels2'] = [e if isinstance(e, str) else list(e) for e in tels]
+    elif y < 0.85:
+        case['tels2'] = [gen_elem(rng) for _ in range(rng.choice([1, 1, 2]))]
 
 
 def quote(s):
@@ -315,6 +506,7 @@ def gen_case(rng):
         extra = [[p, rng.choice(PROXY_KINDS)] for p in poss if tuple(p) not in marked and rng.random() < pp]
         if extra:
             case['falsy'] = case.get('falsy', []) + extra
+    gen_typed_elements(rng, case)
     return case
 
 
@@ -388,8 +580,12 @@ def _valid_pos(tree, p):
 
 def valid(case):
     try:
-        if sorted(k for k in case if k != 'falsy') != ['a', 'els', 'r', 'rel', 'rel_str', 'script', 'tree', 'vroot']:
+        if sorted(k for k in case if k not in ('falsy', 'tels', 'tels2')) != \
+                ['a', 'els', 'r', 'rel', 'rel_str', 'script', 'tree', 'vroot']:
             return False
+        for k in ('tels', 'tels2'):
+            if k in case and not (isinstance(case[k], list) and all(valid_elem(e) for e in case[k])):
+                return False
         t = case['tree']
         for f in case.get('falsy', []):
             if not (isinstance(f, list) and len(f) == 2 and f[1] in MARK_KINDS and isinstance(t, list)
@@ -499,6 +695,36 @@ def _remap_falsy(case, cand):
 
 
 def shrinks(case):
+    for cand in _shrinks_typed(case):
+        yield cand
+    typed = {k: case[k] for k in ('tels', 'tels2') if k in case}
+    for cand in _shrinks_rest({k: v for k, v in case.items() if k not in ('tels', 'tels2')}):
+        if isinstance(cand, dict) and typed:
+            cand = dict(cand, **typed)
+        yield cand
+
+
+def _shrinks_typed(case):
+    if 'tels' not in case and 'tels2' not in case:
+        return
+    yield {k: v for k, v in case.items() if k not in ('tels', 'tels2')}
+    if case.get('tels2'):
+        yield {k: v for k, v in case.items() if k != 'tels2'}
+    t1, t2 = case.get('tels', []), case.get('tels2', [])
+    if len(t1) == len(t2):
+        for i in range(len(t1)):
+            yield dict(case, tels=t1[:i] + t1[i + 1:], tels2=t2[:i] + t2[i + 1:])
+    for key, t in (('tels', t1), ('tels2', t2)):
+        for i in range(len(t)):
+            yield dict(case, **{key: t[:i] + t[i + 1:]})
+        for i, e in enumerate(t):
+            if not isinstance(e, str):
+                for simple in ('a', ['i', 1], ['b', 'a']):
+                    if e != simple:
+                        yield dict(case, **{key: t[:i] + [simple] + t[i + 1:]})
+
+
+def _shrinks_rest(case):
     fal = case.get('falsy')
     if fal:
         yield {k: v for k, v in case.items() if k != 'falsy'}
@@ -582,12 +808,15 @@ def more_positions(case):
 
 
 def to_wire(case):
+    w1, w2 = elems_wire(case)[:2]
     return [_tree_wire(case['tree']), list(case['r']), list(case['a']), list(case['rel']), case['rel_str'],
             list(case['els']), _opt(case['vroot']), case['script'], _opt(host_url_of()), urlsplit_ok(case['rel_str']),
-            more_positions(case)]
+            more_positions(case), w1, w2]
 
 
-NOBS = 13 + NMORE
+NEXT = 7                # observations 16..22: the typed-element calls
+NOBS = 13 + NMORE + NEXT
+I_PATH1, I_PATH2 = 17, 20       # resource_path(r, *tels), then resource_path(r, *tels2) in the same process
 
 
 def from_wire(case, raw):
@@ -625,7 +854,8 @@ def setup(tier):
     config.add_subscriber(on_context, ContextFound)
     config.add_view(view)
     app = config.make_wsgi_app()
-    _impl.update(cur=cur, app=app, Request=Request, T=traversal, registry=config.registry,
+    from pyramid import url as U
+    _impl.update(cur=cur, app=app, Request=Request, T=traversal, U=U, registry=config.registry,
                  base=dict(Request.blank('/').environ), vh=traversal.VH_ROOT_KEY,
                  build_tree=c02.build_tree, res_at=c02.res_at, Leaf=c02.Leaf)
 
@@ -866,6 +1096,28 @@ def _run_once(case):
     falsy = {tuple(p): k for p, k in case.get('falsy', [])}
     for p in more_positions(case):
         obs.append(_guard(lambda p=p: [6, req.resource_url(fresh_resource(case['tree'], falsy, p))]))
+    # 16..22: elements of any type (bytes, int, bool, float, Decimal, Fraction, None, str subclass); the second list is asked
+    # AFTER the first in the same process -- equal-as-a-key elements that print differently must not share an answer
+    # The memo of _join_path_tuple is emptied first, in the warm run too: what these observations answer is then a function
+    # of the case -- their history is the case's own (the str-only calls above, *tels, then *tels2) -- and a failure replays.
+    _, _, v1, v2, kmap = elems_wire(case)
+    clear = getattr(getattr(T, '_join_path_tuple', None), 'cache_clear', None)
+    if clear is not None:
+        clear()
+
+    def canon(x):
+        if x.__class__ is str:
+            return x
+        if x.__class__ is bytes:
+            return [1, x.decode('latin-1')]
+        return [2, str(x), kmap.get(id(x), -1)]
+    obs.append(_guard(lambda: [3, [canon(x) for x in T.resource_path_tuple(r, *v1)]]))
+    obs.append(_guard(lambda: [6, T.resource_path(r, *v1)]))
+    obs.append(_guard(lambda: [6, req.resource_url(r, *v1)]))
+    obs.append(_guard(lambda: [6, req.resource_path(r, *v1)]))
+    obs.append(_guard(lambda: [6, T.resource_path(r, *v2)]))
+    obs.append(_guard(lambda: [6, _impl['U'].resource_url(r, req, *v2)]))      # the module-level entry point
+    obs.append(_guard(lambda: [6, req.resource_path(r, *v2)]))
     return obs
 
 
@@ -926,10 +1178,25 @@ def classify(case, obs, spec):
     Request.blank; exactly the relative observations (4 tuple, 6 string) deviate, the absolute ones agree"""
     if spec is None:
         return None
+    if _history_differs(obs):
+        return None
     bad = _bad_ops(obs, spec)
     if bad and set(bad) <= {4, 6} and case['rel'] and SCHEME_RE.match(case['rel'][0]):
         return FINDING_COLON
     return None
+
+
+def _raw_key_twins(case):
+    """the input class of the repaired finding C07-join-path-tuple-cache-raw-key (never excused by classify): tels2 is equal
+    to tels AS A CACHE KEY (1 == True == 1.0) although it prints differently.  Exactly: same length, position by position the
+    same key class, at least one non-str non-bytes, different printed texts"""
+    w1, w2 = elems_wire(case)[:2]
+    if len(w1) != len(w2) or not any(e[0] == 2 for e in w1):
+        return False
+    for x, y in zip(w1, w2):
+        if x[0] != y[0] or (x[0] == 2 and x[2] != y[2]) or (x[0] != 2 and x[1] != y[1]):
+            return False
+    return [e[1] for e in w1] != [e[1] for e in w2]
 
 
 def _history_differs(obs):
@@ -1034,6 +1301,18 @@ def kinds(case, obs):
     if case['rel_str'] != '/'.join(quote(s) for s in case['rel']):
         ks.append('rel-str-perturbed')
     ks.append('elements:%d' % len(case['els']))
+    w1, w2 = elems_wire(case)[:2]
+    if w1 or w2:
+        ks.append('typed-elements')
+        for e in case.get('tels', []) + case.get('tels2', []):
+            ks.append('element-type:' + ('str' if isinstance(e, str) else e[0]))
+        if _raw_key_twins(case):
+            ks.append('second-elements-equal-as-keys-print-differently')
+        for i, tag in ((I_PATH1, 'typed-path'), (I_PATH2, 'typed-path-second')):
+            o = obs[i]
+            ks.append('%s:%s' % (tag, 'text' if o[0] == 6 else 'exc-%s' % (o[1],)))
+    if any(n in UNICODE_CLASS for n in names_at(case['tree'], case['r'])):
+        ks.append('lineage-unicode-class-name')
     ks.append('script:' + ('empty' if not case['script'] else 'set'))
     o11, o12 = obs[11], obs[12]
     ks.append('virtual_root:' + ('root' if o11 == [4, []] else 'inner' if o11[0] == 4 else 'keyerror' if o11[0] == 5 else 'exc'))
@@ -1053,11 +1332,20 @@ OBS_NAMES = ['resource_path_tuple(r,*els)', 'resource_path(r,*els)', 'find_resou
              'find_resource(a, rel_str)', 'find_resource(r, path(a)+"/"+rel_str)', 'ResourceURL(r, request)',
              'request.resource_url(r,*els)', 'request.resource_path(r,*els)', 'virtual_root(r, request)',
              'request of the URL path under the same header'] + \
-    ['request.resource_url(<new object for another resource>) on the same request #%d' % (k + 1) for k in range(3)]
+    ['request.resource_url(<new object for another resource>) on the same request #%d' % (k + 1) for k in range(3)] + \
+    ['resource_path_tuple(r, *tels)', 'resource_path(r, *tels)', 'request.resource_url(r, *tels)',
+     'request.resource_path(r, *tels)', 'resource_path(r, *tels2) after resource_path(r, *tels)',
+     'pyramid.url.resource_url(r, request, *tels2)', 'request.resource_path(r, *tels2)']
 
 
 def explain(item):
     out = []
+    impl = item.get('impl') or []
+    if _history_differs(impl):
+        warm, cold = impl[1], impl[2]
+        return [{'observation': OBS_NAMES[i], 'answer_over_the_caches_earlier_cases_left': warm[i],
+                 'answer_from_cold_caches': cold[i]}
+                for i in range(min(len(warm), len(cold), NOBS)) if warm[i] != cold[i]]
     for i in _bad_ops(item.get('impl') or [], item.get('spec') or []):
         out.append({'observation': OBS_NAMES[i], 'observed': item['impl'][i], 'property_demands': item['spec'][i]})
     return out
@@ -1081,6 +1369,16 @@ def targeted(broken, disagreements, rng):
             out.append(dict(base, r=[0], a=a, rel=rel, rel_str='/'.join(quote(s) for s in rel), vroot=None))
     for els in (['a b'], ['a/b', 'c'], ['é']):
         out.append(dict(base, r=[0, 0], els=els, vroot='/one', script='/app'))
+    # elements of any type, the second list equal to the first as keys
+    for r in ([], [0], [3, 0]):
+        for t1, t2 in ((['caf\xe9', ['b', wsgi('caf\xe9')]], [['b', wsgi('caf\xe9')]]), ([['i', 1]], [['t', True]]),
+                       ([['t', True]], [['i', 1]]), ([['f', '1.0']], [['i', 1]]), ([['i', 0], 'x'], [['f', '-0.0'], 'x']),
+                       ([['b', '\xff']], [['b', 'a']]), ([['s', 'a b']], [['s', 'a b']]), ([['n']], [['i', 7]]),
+                       ([['d', '1.0']], [['d', '1.00']]), ([['b', wsgi('\u0664\u0662')]], ['\u0664\u0662'])):
+            out.append(dict(base, r=r, vroot=None, tels=t1, tels2=t2))
+            out.append(dict(base, r=r, vroot='/one', script='/app', tels=t1, tels2=t2))
+    for nm in UNICODE_CLASS:
+        out.append(dict(base, tree=[[nm, [[nm, None]]]], r=[0, 0], a=[0], rel=[nm], rel_str=quote(nm), vroot=wsgi('/' + nm)))
     for d in disagreements[:20]:
         c = d.get('case')
         if c:
